@@ -74,3 +74,4 @@ revert 8c12c05 C04
 revert 536f122 C13
 revert 9bea1b7 C04
 revert 25cefdc C17 C13
+revert e3cce72 C15
